@@ -69,6 +69,10 @@ func (m c09) buildCollection(s *c09scn, order []int) (jsonapi.Collection, *Panic
 			for _, i := range order {
 				sc.Add(buildResource(&t, s.Res[i]))
 			}
+			other := &jsonapi.SoftCollection{}
+			typ2 := buildType(&st)
+			other.SetType(&typ2)
+			other.Add(buildResource(&t, &ResSpec{Type: t.Name, ID: "zz-other"}))
 			col = sc
 		case "WrapperCollection":
 			wt := t
@@ -76,6 +80,15 @@ func (m c09) buildCollection(s *c09scn, order []int) (jsonapi.Collection, *Panic
 			wc := jsonapi.WrapCollection(newResource(&wt))
 			for _, i := range order {
 				wc.Add(buildResource(&wt, s.Res[i]))
+			}
+			// another collection of the same type is alive and filled at the same time (collections do not share storage)
+			other := jsonapi.WrapCollection(newResource(&wt))
+			for k := 0; k < 3; k++ {
+				other.Add(buildResource(&wt, &ResSpec{Type: wt.Name, ID: fmt.Sprint("zz-other-", k)}))
+			}
+			if len(order) > 0 {
+				wc2 := jsonapi.WrapCollection(newResource(&wt))
+				wc2.Add(buildResource(&wt, &ResSpec{Type: wt.Name, ID: "zz-other-late"}))
 			}
 			col = wc
 		case "Range-result":
